@@ -341,6 +341,76 @@ def mode_bracketing(sym):
                 an_close_under_mode_off=(an['close_out'] == 0), the_mode_off=(the['eval_out'] == 0))
 
 
+
+def rule_builders(rule):
+    """rule.refinement / rule.alternative_or_next: how the new operator is wrapped around the current node and linked into the
+    operator above it.  Recognised shapes only; anything else is refused."""
+    def D(src):
+        return ast.dump(ast.parse(src).body[0])
+
+    def stmts(fn):
+        return [ast.dump(x) for x in body_wo_doc(fn)]
+    ref = find(rule, ast.FunctionDef, 'refinement')
+    rs = stmts(ref)
+    need(D("current_node = SymbolicExpression._current_parent_()") in rs and D("prev_parent = current_node._parent_") in rs
+         and D("current_node._parent_ = None") in rs and D("new_conditions_root._parent_ = prev_parent") in rs
+         and D("return new_conditions_root.right") == rs[-1], 'refinement: unexpected statements')
+    if D("new_conditions_root = ExceptIf(SymbolicExpression._current_parent_(), new_branch)") in rs or \
+            D("new_conditions_root = ExceptIf(current_node, new_branch)") in rs:
+        ref_left = True
+    else:
+        raise Refuse('refinement: the ExceptIf is not built as ExceptIf(current, new_branch)')
+    relink_side = D("""if isinstance(prev_parent, BinaryOperator):
+    if prev_parent.left is current_node:
+        prev_parent.left = new_conditions_root
+    else:
+        prev_parent.right = new_conditions_root""")
+    relink_right = D("""if isinstance(prev_parent, BinaryOperator):
+    prev_parent.right = new_conditions_root""")
+    known = {D("new_branch = chained_logic(AND, *conditions)"), D("new_branch._node_.weight = RDREdge.Refinement")}
+    extra = [x for x in rs if x not in known and 'prev_parent' in x and 'new_conditions_root' in x
+             and x != D("new_conditions_root._parent_ = prev_parent")]
+    if relink_side in rs:
+        ref_relink = 'RelinkSide'
+    elif relink_right in rs:
+        ref_relink = 'RelinkRightOnly'
+    else:
+        need(not extra, 'refinement: unrecognised re-linking code')
+        ref_relink = 'RelinkNone'
+    alt = find(rule, ast.FunctionDef, 'alternative_or_next')
+    as_ = stmts(alt)
+    need(D("current_node = SymbolicExpression._current_parent_()") in as_ and D("prev_parent = current_node._parent_") in as_
+         and D("current_node._parent_ = None") in as_ and D("new_conditions_root._parent_ = prev_parent") in as_
+         and D("return new_conditions_root.right") == as_[-1], 'alternative_or_next: unexpected statements')
+    loop = D("""while (isinstance(current_node._parent_, (Alternative, Next))
+       or (isinstance(current_node._parent_, ExceptIf) and current_node is current_node._parent_.left)):
+    current_node = current_node._parent_""")
+    once = D("""if isinstance(current_node._parent_, (Alternative, Next)):
+    current_node = current_node._parent_
+elif isinstance(current_node._parent_, ExceptIf) and current_node is current_node._parent_.left:
+    current_node = current_node._parent_""")
+    if loop in as_:
+        climb = 'ClimbLoop'
+    elif once in as_:
+        climb = 'ClimbOnce'
+    else:
+        raise Refuse('alternative_or_next: unrecognised way of finding the node to wrap')
+    wrap = D("""if type_ == RDREdge.Alternative:
+    new_conditions_root = Alternative(current_node, new_branch)
+elif type_ == RDREdge.Next:
+    new_conditions_root = Next(current_node, new_branch)
+else:
+    raise ValueError(f"Invalid type: {type_}, expected one of: {RDREdge.Alternative}, {RDREdge.Next}")""")
+    need(wrap in as_, 'alternative_or_next: the new operator is not built as Alternative(current, new_branch)')
+    if relink_right in as_:
+        alt_relink = 'RelinkRightOnly'
+    elif relink_side in as_:
+        alt_relink = 'RelinkSide'
+    else:
+        alt_relink = 'RelinkNone'
+    return ref_left, ref_relink, climb, alt_relink
+
+
 # ------------------------------------------------------------------------------------------------
 def emit(d):
     sym, ent, pred, utl = (parse(os.path.join(d, f)) for f in ('symbolic.py', 'entity.py', 'predicate.py', 'utils.py'))
@@ -353,6 +423,7 @@ def emit(d):
     pos = positional(pred)
     scal = scalar_types(utl)
     mb = mode_bracketing(sym)
+    rb = rule_builders(parse(os.path.join(d, 'rule.py')))
     o = []
     o.append("(* Generated.v — REGENERATED ON EVERY RUN by translator/eql2coq.py from /repo's current source. Do not edit. *)")
     o.append("From EQL Require Import Base Values.\n")
@@ -416,6 +487,14 @@ def emit(d):
     o.append("(* An.evaluate / The.evaluate: how the result generators bracket the symbolic mode (see Mode.v) *)")
     for k, v in mb.items():
         o.append(f"Definition {k} : bool := {'true' if v else 'false'}.")
+    o.append("")
+    o.append("(* rule.refinement / rule.alternative_or_next: how the new operator is linked into the tree (see RuleTree.v) *)")
+    o.append("Inductive relink := RelinkNone | RelinkRightOnly | RelinkSide.")
+    o.append("Inductive climbing := ClimbOnce | ClimbLoop.")
+    o.append(f"Definition refinement_wraps_current_as_left : bool := {'true' if rb[0] else 'false'}.")
+    o.append(f"Definition refinement_relink : relink := {rb[1]}.")
+    o.append(f"Definition alternative_climb : climbing := {rb[2]}.")
+    o.append(f"Definition alternative_relink : relink := {rb[3]}.")
     return "\n".join(o) + "\n"
 
 
